@@ -195,8 +195,17 @@ def r19_3(ctx):
         ctx.bad(construct, "no accumulation found", f.loc())
     else:
         gs = fl.guards_at(upd[0]) or set()
-        want = {(f"_find_project_root(os.walk({pr})[*][0], {cache}) == {pr}", True), (f"nearest == {pr}", True)}
-        ok = bool(gs & want) or any(k.startswith("_find_project_root(") and k.endswith(f"== {pr}") and p for k, p in gs)
+        ok = False
+        for k, p in gs:
+            if not (p and k.endswith(f" == {pr}")):
+                continue
+            lhs = k[: -len(f" == {pr}")]
+            if lhs.startswith("_find_project_root("):
+                ok = True
+            else:
+                asg = [a for a in ast.walk(f.node) if isinstance(a, ast.Assign) and ast.unparse(a.targets[0]) == lhs]
+                ok = len(asg) == 1 and isinstance(asg[0].value, ast.Call) and ast.unparse(asg[0].value.func) == "_find_project_root" \
+                    and ast.unparse(asg[0].value.args[1]) == cache
         walks = [n for n in ast.walk(f.node) if isinstance(n, ast.For) and "os.walk(" in ast.unparse(n.iter)]
         pruned = any(isinstance(x, ast.Continue) for w in walks for x in ast.walk(w))
         if ok:
